@@ -5,6 +5,7 @@ import (
 
 	cose "github.com/veraison/go-cose"
 
+	"verif/refcbor"
 	"verif/refcose"
 )
 
@@ -28,6 +29,10 @@ func scenarioC01(r *Run) {
 	t := r.T
 	if t.Bool(1, 6, "c01.envelope") {
 		c01Envelope(r)
+		return
+	}
+	if t.Bool(1, 5, "c01.siblings") {
+		c01Siblings(r)
 		return
 	}
 	spec := genSpec(t, SpecOpts{MaxExtra: 40, MaxSigner: 6, BigOK: r.Thorough() && t.Bool(1, 8, "c01.big")})
@@ -290,8 +295,24 @@ func c01Envelope(r *Run) {
 	ent := NewEntropy(uint64(t.U32("entropy.seed")))
 	signer := r.signerFor(k, false)
 	verifier := r.verifierFor(k, false)
+	reused := t.Bool(1, 3, "env.reused-headers")
+	if reused {
+		// headers taken over from an earlier, decoded message: they name the
+		// algorithm and carry the raw protected bytes they were decoded from
+		a := k.Alg
+		base.Prot = append(removeLabel(base.Prot, refcose.LAlg), KV{refcbor.Uint(refcose.LAlg), refcbor.Int(a)})
+	}
 	h := libHeaders(base, Spelling{T: t}, true)
-	r.Op("ENVELOPE", "key=%s hash=%d prot=%s unprot=%s", k.Name, ha, diagBucket(base.Prot), diagBucket(base.Unprot))
+	if reused {
+		var raw []byte
+		var rerr error
+		r.Lib(func() { raw, rerr = h.Protected.MarshalCBOR() })
+		if rerr == nil {
+			h.RawProtected = raw
+			r.Probe("envelope-from-reused-decoded-headers")
+		}
+	}
+	r.Op("ENVELOPE", "key=%s hash=%d prot=%s unprot=%s reused-headers=%v", k.Name, ha, diagBucket(base.Prot), diagBucket(base.Unprot), reused)
 	r.Outcome(fmt.Sprintf("envelope/alg=%d/hash=%d/ct=%v/loc=%v", k.Alg, ha, p.PreimageContentType != nil, p.Location != ""))
 	var env []byte
 	var err error
@@ -331,3 +352,64 @@ func envelopeSafe(l Layer) Layer {
 }
 
 var _ = fmt.Sprintf
+
+// c01Siblings: several countersignatures side by side (lists of full ones
+// made with different keys, abbreviated ones, nested ones) on the message and
+// on its COSE_Signatures; every one must verify against its parent in memory
+// and after the round trip.
+func c01Siblings(r *Run) {
+	t := r.T
+	ent := NewEntropy(uint64(t.U32("entropy.seed")))
+	spec := genSpec(t, SpecOpts{MaxExtra: 4, MaxSigner: 3, Cheap: true})
+	w, is := r.LibWire(t, spec, ent, false, 2, true)
+	if w == nil {
+		r.Outcome("sign-refused")
+		return
+	}
+	r.Op("ISSUE", "%s with sibling countersignatures", spec)
+	n := 0
+	check := func(stage string, rc *Received) bool {
+		ok := true
+		walkWireCsigs(w, rc, func(nd *CsigNode, cs *cose.Countersignature, abbrev []byte, parent any) {
+			if !ok {
+				return
+			}
+			n++
+			r.Check()
+			verifier := r.verifierFor(nd.Key, false)
+			var err error
+			switch {
+			case nd.Abbrev:
+				r.Lib(func() { err = cose.VerifyCountersign0(verifier, parent, nd.External, abbrev) })
+			case cs == nil:
+				r.Fail("countersignature-lost/"+stage, "countersignature under label %d index %d not found %s", nd.Label, nd.Index, stage)
+				ok = false
+				return
+			default:
+				r.Lib(func() { err = cs.Verify(verifier, parent, nd.External) })
+			}
+			if err != nil {
+				ok = false
+				r.Fail("sibling-countersignature-does-not-verify/"+stage, "countersignature (label %d, index %d, abbreviated=%v, key %s) does not verify against its parent %s: %v\nwire: %s",
+					nd.Label, nd.Index, nd.Abbrev, nd.Key.Name, stage, err, hexShort(w.B))
+			}
+		})
+		return ok
+	}
+	if !check("in-memory", &Received{Kind: spec.Kind, M1: is.M1, MS: is.MS}) {
+		return
+	}
+	rc, err := r.Decode(spec.Kind, w.B)
+	if err != nil {
+		r.Check()
+		r.Fail("decode-fails-after-countersign", "own encoding of a countersigned message refused: %v\nwire: %s", err, hexShort(w.B))
+		return
+	}
+	if !check("after-roundtrip", rc) {
+		return
+	}
+	if n > 1 {
+		r.Probe("sibling-countersignatures-verified")
+	}
+	r.Outcome(fmt.Sprintf("siblings/%s/n=%s", spec.Kind, sizeClass(n)))
+}
